@@ -98,6 +98,12 @@ class RoundTrip(Sub):
         rec.label("layout:" + ("contiguous" if X.tensor().is_contiguous() else "noncontiguous_operand"))
         M = X.matrix()
         Min = _layout(_to4(M), layout).contiguous()
+        # the matrix argument in another memory layout (same values): column-major storage of every matrix (what R.mT.contiguous().mT
+        # or a matrix coming out of a LAPACK routine looks like) for one case in three
+        mview = tu.view_of(case, "M")
+        if mview != "contiguous":
+            Min = Min.mT.contiguous().mT
+            rec.label("matrix_arg:column_major")
         Min0 = Min.clone()
         with rec.sut("%s(%s,check=%s)" % (case["via"], layout, case["check"])):
             if case["via"] == "mat2":
